@@ -91,6 +91,7 @@ def model_graph_real(c, depth, tier):
     txt = open(os.path.join(vlib.SPEC, "MCStreamReal.cfg")).read()
     txt = re.sub(r"DEPTH = \d+", "DEPTH = %d" % depth, txt)
     txt = re.sub(r'TIER = "\w+"', 'TIER = "%s"' % tier, txt)
+    txt = re.sub(r"SEEDV = \d+", "SEEDV = %d" % (c.seed % 100000), txt)
     open(cfg, "w").write(txt)
     dump = os.path.join(wd, "sreal")
     r = vlib.run_tlc("MCStreamReal", cfg=cfg, workers=1, timeout=3000, extra=["-dump", "dot,actionlabels", dump], tag="real")
